@@ -1471,6 +1471,9 @@ static void expect_raise(Cont* c, const char* prop, const char* what, var ex, in
   }
 }
 
+/* a refused del / dealloc of an element that lives inside a container is a C19 matter (non-heap objects are never freed) and, when the
+ * C12 check is the one running, a C12 matter too (the failed call raised but must have changed nothing) */
+#define EMB_PROP() (g_focus == 12 ? "C12" : "C19")
 static void do_bad(const Op* o) {
   Cont* c = pick(o->a[0]); if (!c) return;
   int kind = (int)(((o->a[1] % 32) + 32) % 32);
@@ -1585,12 +1588,12 @@ static void do_bad(const Op* o) {
               what = "resize-tuple-grow"; acc = X_FORMAT | X_RESOURCE | X_VALUE; try { resize(obj, (size_t)n + (size_t)(x & 3)); } catch (e) { ex = e; } break;
       case 8: { /* C19: wrong deallocation of an embedded element */
                 if (c->kind == K_TUPLE || n == 0) return;
-                prop = "C19"; progress(g_opidx, "C19", "bad-dealloc-embedded");
+                prop = EMB_PROP(); progress(g_opidx, prop, "bad-dealloc-embedded");
                 var el = get(obj, $I(x % n < 0 ? 0 : x % n));
                 what = "dealloc-embedded"; acc = X_RESOURCE | X_VALUE; try { dealloc(el); } catch (e) { ex = e; } break; }
       case 9: { if (c->kind == K_TUPLE || n == 0) return;
                 if (g_avoid_kf & KF_DEL_NONHEAP_SILENT) return;
-                prop = "C19"; progress(g_opidx, "C19", "bad-del-embedded");
+                prop = EMB_PROP(); progress(g_opidx, prop, "bad-del-embedded");
                 var el = get(obj, $I(x % n < 0 ? 0 : x % n));
                 what = (x & 1) ? "del_raw-embedded" : "del-embedded"; acc = X_RESOURCE | X_VALUE;
                 try { if (x & 1) del_raw(el); else del(el); } catch (e) { ex = e; } break; }
@@ -1618,7 +1621,7 @@ static void do_bad(const Op* o) {
       case 7: what = "get-null-key"; acc = X_VALUE; try { get(obj, NULL); } catch (e) { ex = e; } break;
       case 8: if (c->kind == K_TABLE) { if (n < 2) return; what = "resize-below-len"; acc = X_FORMAT | X_RESOURCE | X_VALUE; try { resize(obj, 1 + (size_t)(((x % (n - 1)) + (n - 1)) % (n - 1))); } catch (e) { ex = e; } }
               else { what = "resize-tree-nonzero"; acc = X_FORMAT | X_RESOURCE | X_VALUE; try { resize(obj, 1 + (size_t)(x & 7)); } catch (e) { ex = e; } } break;
-      case 9: { if (n == 0) return; prop = "C19"; progress(g_opidx, "C19", "bad-dealloc-embedded");
+      case 9: { if (n == 0) return; prop = EMB_PROP(); progress(g_opidx, prop, "bad-dealloc-embedded");
                 var el = get(obj, MKVAL(c->kt, pk));
                 what = "dealloc-embedded"; acc = X_RESOURCE | X_VALUE; try { dealloc(el); } catch (e) { ex = e; } break; }
       case 10: what = "set-null-value"; acc = X_VALUE; try { set(obj, MKVAL(c->kt, pk), NULL); } catch (e) { ex = e; } break;
